@@ -3,16 +3,13 @@ from functools import partial
 
 from . import engine
 from .rules import (tables, errflow, stop, scope, fold, hashorder, eqfield, cast, lock, witness, orpat, guard, parsepure,
-                    kernel, evalorder, layer, export, panic, misc, pairflowrule, variant, folddrop, queryguard, iterops, round3, forshape, typeprint)
+                    kernel, evalorder, layer, export, panic, misc, pairflowrule, variant, folddrop, queryguard, iterops, round3, forshape, typeprint, variance)
 
 TRUST = ["rustc: type checking, MIR construction, Instance resolution, auto traits",
          "pest / pest_meta: PEG semantics, silent/atomic rule semantics, PrattParser precedence climbing",
          "std: wrapping_* arithmetic, RwLock, slice / iterator order"]
 
 NOT_APPLICABLE = {
-    "C10": "subtype laws (reflexivity, transitivity, bounds, value soundness) quantify over an infinite type universe: deciding "
-           "them needs induction or enumeration, not a shape of the code; the only structural surrogate (arm order of "
-           "Type::matches) would be a frozen copy of the function, i.e. a false alarm in waiting (DESIGN.md section 4, C10)",
 }
 
 PROPS = {}
@@ -122,6 +119,20 @@ prop("C09",
      "slice bounds are type-checked (R-ORPAT, R-GUARD), index casts are exact (R-CAST). Does NOT decide the index arithmetic or "
      "slyce's selection.",
      "forbidden-callee scan, panic inventory, cast guards", "")
+
+prop("C10",
+     [variance.run, round3.run_meetuse],
+     "Decides the direction clauses of the subtype relation on a provenance analysis of Type::matches, FunctionType::matches, "
+     "StructType::matches and their closures (every value labelled with the operand - left S or right O -, field and variant "
+     "payload it comes from; closures inherit the labels of what they capture and of the iterator they are handed to): arrays, "
+     "tuples, struct fields, union members and function results are compared (part of S, part of O); function parameters (O, S); "
+     "no `matches` on the payload of `mut` (cells fall to ==); the members of a left union are combined with all, of a right "
+     "union with any, tuples pairwise with all and equal length, parameter counts compared; the fields of O are looked up in S; "
+     "the arms for S = `!` and O = `any` answer true without consulting anything; Type::conjoin (the meet) is used only for "
+     "parameter types (R-MEETUSE). Does NOT decide reflexivity, transitivity, that conjoin is a lower bound, nor value soundness: "
+     "those quantify over all types.",
+     "provenance dataflow over MIR incl. closure capture and iterator items",
+     "a comparison written through a helper the labels cannot follow is reported as undecidable")
 
 prop("C11",
      [iterops.run_src, iterops.run_loop, iterops.run_pick, forshape.run, partial(panic.run, scope=ITER_SCOPE, name="R-PANIC"), round3.run_iterfold],
